@@ -667,6 +667,12 @@ def lie_bracket(
         stride=stride,
     )
     D = flow.ndim - 2
+    if mode == "bspline":
+        # derivatives of the splines live on the (n - 3) * stride output grid: evaluate the fields there as well
+        from .bspline import evaluate_cubic_bspline
+
+        u = evaluate_cubic_bspline(u, stride=1 if stride is None else stride)
+        v = evaluate_cubic_bspline(v, stride=1 if stride is None else stride)
     w = torch.zeros_like(u)
     for i in range(D):
         w_i = w.narrow(1, i, 1)
